@@ -567,6 +567,15 @@ class SimKernel:
             os.close(fd)
         self._put(entry.obj)
 
+    def shutdown(self):
+        """end of the simulated machine: give the real descriptors back"""
+        for fd in sorted(self.fds):
+            entry = self.fds.pop(fd)
+            if self._fd_alive(fd):
+                os.close(fd)
+        for inst in list(self._live.values()):
+            self.discard(inst)
+
     def close_all(self, pid):
         """process `pid` died: all its descriptors are closed"""
         for fd in sorted(self.fds):
